@@ -40,3 +40,109 @@ CHECKS["C04"] = {
         "writer is an in-memory recorder whose write_all/flush never fail",
     ],
 }
+
+STUB_POOL = [
+    "varlink::server::Worker::new -> ghost counter, returns Worker{thread: None} (Kani has no threads)",
+    "std::sync::mpsc::Sender::send -> ghost counter (send crashes kani-compiler 0.68: ICE intrinsics.rs:243)",
+]
+
+CHECKS["C14"] = {
+    "design_ref": "3/C14",
+    "harnesses": [
+        H("c14_execute_step", mod="server::verif_server::c14", timeout=(600, 1800),
+          functions=["varlink::server::ThreadPool::execute", "varlink::server::ThreadPool::num_busy"],
+          symbolic="workers, max, unfinished connections (each <= 5) constrained by the representation invariant",
+          bounds="one acceptor step from every pool state with counters <= 5 that satisfies the invariant; unwind 8",
+          stubs=STUB_POOL),
+        H("c14_new_establishes_invariant", mod="server::verif_server::c14", timeout=(600, 1800),
+          functions=["varlink::server::ThreadPool::new"],
+          symbolic="initial, max in 1..=5",
+          bounds="initial, max <= 5; unwind 8", stubs=STUB_POOL[:1]),
+        H("c14_worker_protocol", mod="server::verif_server::c14", timeout=(600, 1800),
+          functions=["varlink::server::Worker::new (the worker closure, run inline)"],
+          symbolic="busy counter before the job (1..=5)",
+          bounds="one job followed by Terminate; unwind 4",
+          stubs=["std::thread::spawn -> runs the closure inline (sequentialised)",
+                 "std::sync::mpsc::Receiver::recv -> pops a scripted message queue [NewJob(job), Terminate]"]),
+    ],
+    "assumptions": [
+        "thread schedules are abstracted: the acceptor step and the worker steps are each checked as atomic steps "
+        "from an arbitrary state satisfying the invariant (workers <= max and workers >= min(unfinished, max)); "
+        "any interleaving is a sequence of such steps because every access to the shared counter is inside the "
+        "RwLock critical sections; liveness (an idle worker eventually dequeues) is assumed from the OS scheduler",
+        "precondition: initial_worker_threads <= max_worker_threads",
+    ],
+}
+
+STUB_HANDLE = STUB_SER + STUB_FMT + [
+    "serde_json::from_slice -> scripted deserializer: the k-th message is answered by a pre-drawn script (syntax "
+    "error, or an object with the drawn members) that drives the real derived Deserialize visitor of Request",
+    "serde_json::from_value -> scripted deserializer driving the real Deserialize impl of the argument struct",
+    "std::io::BufReader::new -> BufReader::with_capacity(4, _) (same code, 4-byte instead of 8 KiB buffer)",
+    "core::slice::memchr::{memchr,memrchr} -> naive byte loops (std's word-at-a-time versions use pointer alignment tricks)",
+    "alloc::string::String::from_utf8_lossy -> empty string (only used to fill the SerdeJsonDe error text)",
+    "std::hash::RandomState::new -> fixed keys (empty HashMap only)",
+    "<serde_json::Value as Clone>::clone -> shallow clone of scalar values (compound values are a reported failure)",
+    "varlink::VarlinkService::call (private table lookup) -> dispatch model: built-in interface = real code, "
+    "'a.b' = scripted method implementation, anything else = reply_interface_not_found; the real function is "
+    "verified by the C03 harnesses",
+]
+
+# per-loop unwind bounds for the handle-level harnesses (default bound: the harness's
+# #[kani::unwind]); the long ones are comparisons / searches over the 43-byte method names
+# Recursive drop glue of serde_json::Value and the BTreeMap loops behind it are only reachable
+# under infeasible guards (the harness values are scalars) but CBMC cannot see that once a
+# discriminant is an if-then-else; they are cut at depth 1 / 2 iterations. Unwinding
+# assertions stay on, so a feasible deeper path would be reported.
+VALUE_CUTS = [("rec:drop_glue::<serde_json::Value>$", 1),
+              ("rec:drop_glue::<.*BTreeMap<.*serde_json::Value", 1),
+              ("rec:drop_glue::<.*Vec<serde_json::Value", 1),
+              ("rec:drop_glue::<.*btree.*serde_json::Value", 1),
+              (r"collections::btree::", 2)]
+HANDLE_LOOPS = [("=memcmp.0", 46), (r"memchr::memrchr", 46), (r"tagser::key_eq", 21), (r"tagser::pack", 10),
+                (r"nde::string_of", 10)] + VALUE_CUTS
+
+HANDLE_FUNCS = ["<varlink::VarlinkService as varlink::ConnectionHandler>::handle", "varlink::Call::new",
+                "<varlink::VarlinkService as varlink::Interface>::call", "varlink::Call::reply_struct",
+                "varlink::Call::reply_parameters", "varlink::Call::reply_interface_not_found",
+                "varlink::CallTrait::reply_method_not_found", "varlink::CallTrait::reply_invalid_parameter",
+                "derive(Deserialize) for varlink::Request", "std::io::BufReader (real, small capacity)"]
+
+
+def handle_h(name, k, tiers, timeout):
+    return H(name, mod="verif_lib::c01", tiers=tiers, timeout=timeout, functions=HANDLE_FUNCS,
+             symbolic="per message: parse ok/error, more/oneway/upgrade in {absent,false,true}, target in 7 kinds, "
+                      "parameters kind, method-implementation script of <= 2 ops out of 6",
+             bounds="%d pipelined message(s), concrete framing, 4-byte BufReader (refilled mid-stream); parameters "
+                    "null/non-null per message fixed by the _p<mask> suffix, position of the unparsable message by "
+                    "_f<i> (f9 = none); unwind 8 (46 for string compares)" % k,
+             stubs=STUB_HANDLE, loop_rules=HANDLE_LOOPS)
+
+
+CHECKS["C01"] = {
+    "design_ref": "3/C01",
+    "harnesses": [
+        handle_h("c01_stream_k1_p0_f9", 1, ("quick", "thorough"), (1500, 3600)),
+        handle_h("c01_stream_k1_p1_f9", 1, ("quick", "thorough"), (1500, 3600)),
+        handle_h("c01_stream_k1_p0_f0", 1, ("quick", "thorough"), (1500, 3600)),
+        handle_h("c01_stream_k2_p0_f9", 2, ("quick", "thorough"), (2400, 7200)),
+        handle_h("c01_stream_k2_p1_f9", 2, ("thorough",), (2400, 7200)),
+        handle_h("c01_stream_k2_p2_f9", 2, ("thorough",), (2400, 7200)),
+        handle_h("c01_stream_k2_p3_f9", 2, ("quick", "thorough"), (2400, 7200)),
+        handle_h("c01_stream_k2_p0_f1", 2, ("quick", "thorough"), (2400, 7200)),
+        handle_h("c01_stream_k2_p1_f1", 2, ("thorough",), (2400, 7200)),
+        handle_h("c01_stream_k3_p0_f9", 3, ("thorough",), (3600, 14400)),
+        handle_h("c01_stream_k3_p2_f9", 3, ("thorough",), (3600, 14400)),
+        handle_h("c01_stream_k3_p5_f9", 3, ("thorough",), (3600, 14400)),
+        handle_h("c01_stream_k3_p7_f9", 3, ("thorough",), (3600, 14400)),
+        handle_h("c01_stream_k3_p3_f2", 3, ("thorough",), (3600, 14400)),
+    ],
+    "assumptions": [
+        "framing is concrete (message boundaries at fixed offsets): symbolic message lengths through BufReader/Vec are "
+        "beyond CBMC (probe: 4 symbolic bytes, no verdict in 18 min / 18 GB); message CONTENT is symbolic through the "
+        "scripted parser",
+        "for Option members of Request an absent member and a null member are the same (serde_derive semantics)",
+        "more than 3 messages per handle() call: the loop carries no state between iterations other than the reader",
+        "in-memory reader/writer never fail",
+    ],
+}
